@@ -4,6 +4,7 @@ CONSTANTS
   MaxLen = 5
   Scale = 2
   LawId = "cubic"
+  LawTable <- EmptyTable
   FixedJunction = TRUE
 INVARIANT Counters
 INVARIANT RunsOrdered
